@@ -160,6 +160,8 @@ static std::string probe(const std::string& name, const std::vector<std::string>
         Provider p(1u);
         DR mean(2, 2, 0.5), sd(2, 2, 0.25);
         mean(1, 0) = std::stod(arg(0));
+        if (!arg(1).empty())  // optional: the deviation of that cell (0 = "no uncertainty")
+            sd(1, 0) = std::stod(arg(1));
         f.env.update_weather_from_distribution(mean, sd, p);
         return "updated";
     }
